@@ -200,6 +200,9 @@ func (s *V2Session) buildAndSend(ctx context.Context, c ipmi.Command) error {
 		if err := types.InnermostEquals(ipmi.LayerTypeMessage); err != nil {
 			return err
 		}
+		if err := validateResponseOperation(c.Operation(), &s.messageLayer); err != nil {
+			return err
+		}
 		code := s.messageLayer.CompletionCode
 		// must increment here, otherwise we'll miss temporary codes at the
 		// higher levels
